@@ -61,15 +61,38 @@ func startRaftNode(id uint64, nodeIds []uint64, storage wal.WAL, logger *log.Ent
 	}
 
 	if len(nodeIds) > 0 {
-		var peers []etcdRaft.Peer
-		for _, nodeId := range nodeIds {
-			peers = append(peers, etcdRaft.Peer{ID: nodeId})
+		// Bootstrap a new group only on storage that holds nothing.
+		// A node that restarts with an existing log must resume from it.
+		fresh, err := isFreshStorage(storage)
+		if err != nil {
+			return nil, err
 		}
-		return etcdRaft.StartNode(raftConfig, peers), nil
-	} else {
-		// Allow the group to join existing cluster
-		return etcdRaft.RestartNode(raftConfig), nil
+		if fresh {
+			var peers []etcdRaft.Peer
+			for _, nodeId := range nodeIds {
+				peers = append(peers, etcdRaft.Peer{ID: nodeId})
+			}
+			return etcdRaft.StartNode(raftConfig, peers), nil
+		}
 	}
+	// Restart from the stored state or allow the group to join existing cluster
+	return etcdRaft.RestartNode(raftConfig), nil
+}
+
+func isFreshStorage(storage wal.WAL) (bool, error) {
+	hardState, _, err := storage.InitialState()
+	if err != nil {
+		return false, err
+	}
+	snapshot, err := storage.Snapshot()
+	if err != nil {
+		return false, err
+	}
+	lastIndex, err := storage.LastIndex()
+	if err != nil {
+		return false, err
+	}
+	return etcdRaft.IsEmptyHardState(hardState) && etcdRaft.IsEmptySnap(snapshot) && lastIndex == 0, nil
 }
 
 func NewRaftGroup(id uuid.UUID, nodeIds []uint64, storage wal.WAL, transport *RaftTransport) (*RaftGroup, error) {
